@@ -1,5 +1,6 @@
 import Driver.Util
 import PsdVerif.Model.TreeParse
+import PsdVerif.Model.Reopen
 import PsdVerif.Generated.TreeKinds
 
 /-!
@@ -11,6 +12,8 @@ Driver commands of the C08 model.
                      when an artboard key is present. `-` alone = no records.
                      answer: ok <roles> <forest> <flatten of the forest>   |  err <Class>
 `tree.kind <pdi> <keys>`  keys: comma separated Tag names (`-` = none) -> ok <kind>
+`tree.stored <li> <lr16> <lr32>`  each `-` (attribute `None` / block absent) or the number of records held there
+                     (payload ids 0.., 1000.., 2000..) -> ok <slot the reader takes> <payload ids `_iter_layers` yields>
 -/
 namespace Driver.Tree
 open PsdVerif PsdVerif.Tree Driver
@@ -54,7 +57,24 @@ partial def nodeStr : Node → String
 def forestStr (f : List Node) : String :=
   if f.isEmpty then "-" else " ".intercalate (f.map nodeStr)
 
+def parseSlot (off : Nat) (s : String) : Option (Option (List Nat)) :=
+  if s == "-" then some none else (s.toNat?).map fun n => some ((List.range n).map (· + off))
+
+def slotStr : Reopen.Slot → String
+  | .layerInfo => "layer_info"
+  | .lr16 => "LAYER_16"
+  | .lr32 => "LAYER_32"
+
 def cmds : List (String × Cmd) := [
+  ("tree.stored", fun
+    | [a, b, c] => match parseSlot 0 a, parseSlot 1000 b, parseSlot 2000 c with
+      | some a, some b, some c =>
+        let m : Reopen.Sections := ⟨a, b, c⟩
+        let ps := Reopen.storedPayloads m
+        okLine (slotStr (Reopen.readerSlot m) ++ "\t" ++
+          (if ps.isEmpty then "-" else " ".intercalate (ps.map toString)))
+      | _, _, _ => badRequest
+    | _ => badRequest),
   ("tree.open", fun
     | [recs] => match parseRecs recs with
       | some bs =>
